@@ -42,6 +42,9 @@ type pkg struct {
 	owner     map[string]string        // field -> struct
 	funcs     map[string]*ast.FuncDecl // "Name" or "Recv.Name"
 	refElem   map[string]bool          // shared map/slice whose elements are reference-like
+	atomicField map[string]bool        // struct field of a sync/atomic type (round 4b)
+	ty        *typed                   // go/types information (typed.go)
+	clash     []string                 // two structs of the package with an equally named shared field
 }
 
 type lockEv struct {
@@ -63,6 +66,7 @@ type scanResult struct {
 	nFiles    int
 	pkgs      []*pkg
 	opaque    map[string]bool // method calls on package-level values of unknown type (not sync, not regexp)
+	nCalls, nStatic, nDynamic, nValue, nForeign int // call sites by how go/types resolved the callee
 	varsByKnd map[string]int
 }
 
@@ -275,6 +279,16 @@ func (pk *pkg) declare() {
 						for _, fl := range st.Fields.List {
 							k := kindOfType(fl.Type, namedMaps)
 							for _, n := range fl.Names {
+								shared := (hasMu && (k == "map" || k == "slice" || k == "ptr")) || (hasOnce && k != "once" && k != "mutex") || k == "atomic"
+								if o := pk.owner[n.Name]; shared && o != "" && o != s.Name.Name {
+									pk.clash = append(pk.clash, fmt.Sprintf("%s: field %s of %s and of %s", pk.dir, n.Name, o, s.Name.Name))
+								}
+								if k == "atomic" {
+									pk.atomicField[n.Name] = true
+									if pk.owner[n.Name] == "" {
+										pk.owner[n.Name] = s.Name.Name
+									}
+								}
 								if hasMu && (k == "map" || k == "slice" || k == "ptr") {
 									pk.fieldKind[n.Name] = k
 									pk.owner[n.Name] = s.Name.Name
@@ -325,7 +339,7 @@ func (pk *pkg) declare() {
 	for k := range pk.onceField {
 		if !assignedInOnce[k] {
 			delete(pk.onceField, k)
-			if pk.fieldKind[k] == "" {
+			if pk.fieldKind[k] == "" && !pk.atomicField[k] {
 				delete(pk.owner, k)
 			}
 		}
@@ -344,6 +358,10 @@ func (pk *pkg) isPkgVar(id *ast.Ident) bool {
 	if _, ok := pk.vars[id.Name]; !ok {
 		return false
 	}
+	if pk.ty != nil {
+		tp, ok := pk.typedPkgVar(id)
+		return ok && tp == pk
+	}
 	if id.Obj == nil {
 		return true // not resolved inside the file: declared in another file of the package
 	}
@@ -354,7 +372,7 @@ func (pk *pkg) isPkgVar(id *ast.Ident) bool {
 }
 
 func scanAll(repo string) (*scanResult, error) {
-	pkgs, err := loadPackages(repo)
+	pkgs, err := loadTypedPackages(repo)
 	if err != nil {
 		return nil, err
 	}
@@ -597,17 +615,9 @@ func (pk *pkg) scanFunc(fd *ast.FuncDecl, imports map[string]*pkg, res *scanResu
 		}
 		return true
 	})
-	isSharedFieldSel := func(se *ast.SelectorExpr) bool {
-		if !localFieldNames[se.Sel.Name] {
-			return true
-		}
-		id, ok := se.X.(*ast.Ident)
-		if !ok || id.Obj == nil {
-			return true
-		}
-		_, isField := id.Obj.Decl.(*ast.Field) // receiver or parameter
-		return isField
-	}
+	_ = localFieldNames
+	// (round 4b) the selector selects THE field recorded as shared: same field object owner, by go/types
+	isSharedFieldSel := func(se *ast.SelectorExpr) bool { return pk.isOwnedField(se) }
 	// pkgVarOf: the expression denotes a package-level variable (of this package, or pkg.X of an imported library
 	// package): returns its location name and kind
 	pkgVarOf := func(e ast.Expr) (string, string, *pkg, string) {
@@ -617,8 +627,9 @@ func (pk *pkg) scanFunc(fd *ast.FuncDecl, imports map[string]*pkg, res *scanResu
 				return pk.name + "." + t.Name, pk.vars[t.Name], pk, t.Name
 			}
 		case *ast.SelectorExpr:
-			if id, ok := t.X.(*ast.Ident); ok && id.Obj == nil {
-				if tp := imports[id.Name]; tp != nil {
+			// a qualified identifier pkg.X (not a field selection) naming a package-level variable of a library package
+			if _, isSel := pk.ty.info.Selections[t]; !isSel {
+				if tp, ok := pk.typedPkgVar(t.Sel); ok {
 					if k, ok := tp.vars[t.Sel.Name]; ok {
 						return tp.name + "." + t.Sel.Name, k, tp, t.Sel.Name
 					}
@@ -715,7 +726,7 @@ func (pk *pkg) scanFunc(fd *ast.FuncDecl, imports map[string]*pkg, res *scanResu
 		case *ast.SelectorExpr:
 			if loc, _, _, _ := pkgVarOf(t); loc == "" {
 				// x.f = v: a once-field, or a field of a package-level struct value
-				if pk.onceField[t.Sel.Name] && fd.Name.Name != "CloneFrom" {
+				if pk.onceField[t.Sel.Name] && pk.isOwnedField(t) && fd.Name.Name != "CloneFrom" {
 					s := "none"
 					if inOnce {
 						s = "once"
@@ -724,7 +735,7 @@ func (pk *pkg) scanFunc(fd *ast.FuncDecl, imports map[string]*pkg, res *scanResu
 					writes[t] = true
 					return
 				}
-				if pk.fieldKind[t.Sel.Name] != "" {
+				if pk.fieldKind[t.Sel.Name] != "" && pk.isOwnedField(t) {
 					if _, isNew := t.X.(*ast.Ident); isNew && (strings.HasPrefix(fd.Name.Name, "New") || strings.HasPrefix(fd.Name.Name, "new")) {
 						return // constructor initialising its own fresh value
 					}
@@ -782,9 +793,18 @@ func (pk *pkg) scanFunc(fd *ast.FuncDecl, imports map[string]*pkg, res *scanResu
 			case *ast.CallExpr:
 				if s, ok := t.Fun.(*ast.SelectorExpr); ok {
 					recvName := lastName(s.X)
-					_, rk, rp, rn := pkgVarOf(s.X)
-					isMutexRecv := pk.mutexes[recvName] || rk == "mutex"
-					isAtomicRecv := rk == "atomic"
+					_, _, rp, rn := pkgVarOf(s.X)
+					sk := pk.syncKindOf(s.X) // by the TYPE of the receiver expression
+					isMutexRecv := sk == "mutex"
+					isAtomicRecv := false
+					atomicLoc := ""
+					if sk == "atomic" {
+						if rp != nil {
+							isAtomicRecv, atomicLoc = true, rp.name+"."+rn
+						} else if fse, ok := s.X.(*ast.SelectorExpr); ok && pk.atomicField[fse.Sel.Name] && pk.isOwnedField(fse) {
+							isAtomicRecv, atomicLoc = true, pk.locName(fse.Sel.Name)
+						}
+					}
 					switch s.Sel.Name {
 					case "Lock", "RLock":
 						if isMutexRecv {
@@ -819,16 +839,19 @@ func (pk *pkg) scanFunc(fd *ast.FuncDecl, imports map[string]*pkg, res *scanResu
 						}
 					case "Load":
 						if isAtomicRecv {
-							rows = append(rows, access{fn, rp.name + "." + rn, false, "atomic"})
+							rows = append(rows, access{fn, atomicLoc, false, "atomic"})
 							return false
 						}
 					case "Store", "Add", "Swap", "CompareAndSwap", "And", "Or":
 						if isAtomicRecv {
-							rows = append(rows, access{fn, rp.name + "." + rn, true, "atomic"})
+							rows = append(rows, access{fn, atomicLoc, true, "atomic"})
+							for _, a := range t.Args {
+								walk(a, inOnce, inDefer)
+							}
 							return false
 						}
 					case "Do":
-						if strings.Contains(strings.ToLower(typeStr(s.X)), "once") {
+						if sk == "once" {
 							doneOn[strings.TrimSuffix(typeStr(s.X), ".once")] = true
 							if len(t.Args) == 1 {
 								if fl, ok := t.Args[0].(*ast.FuncLit); ok {
@@ -838,18 +861,44 @@ func (pk *pkg) scanFunc(fd *ast.FuncDecl, imports map[string]*pkg, res *scanResu
 							}
 						}
 					}
-					// a call: callee name for the lock-order table
-					callee := ""
-					if id, ok := s.X.(*ast.Ident); ok && id.Obj == nil && imports[id.Name] != nil {
-						callee = imports[id.Name].name + "." + s.Sel.Name
-					} else if _, _, _, nm := pkgVarOf(s.X); nm != "" || true {
-						callee = "." + s.Sel.Name
-					}
-					// a func-typed field called while a lock is held
-					calls = append(calls, callee)
-					evs = append(evs, lockEv{"call", callee, ""})
 					if loc, kind, _, _ := pkgVarOf(s.X); loc != "" && !isSyncKind(kind) && kind != "func" {
 						res.opaque[loc+"."+s.Sel.Name] = true
+					}
+				}
+				// (round 4b) the callee, resolved through go/types: one library function, the implementations of an interface
+				// method, or a function VALUE (field / variable / parameter: code the library does not control → `cb`)
+				{
+					cr := pk.callee(t, res.pkgs)
+					res.nCalls++
+					switch {
+					case cr.foreign:
+						res.nForeign++
+					case cr.value:
+						res.nValue++
+						name := ""
+						switch f := ast.Unparen(t.Fun).(type) {
+						case *ast.Ident:
+							if funcParams[f.Name] && f.Obj != nil {
+								name = "" // listed below (function-typed parameter)
+							} else if pk.isPkgVarFunc(f) {
+								name = f.Name
+							}
+						case *ast.SelectorExpr:
+							name = f.Sel.Name
+						}
+						if name != "" {
+							evs = append(evs, lockEv{"cb", name, ""})
+						}
+					default:
+						if cr.dynamic {
+							res.nDynamic++
+						} else {
+							res.nStatic++
+						}
+						for _, n := range cr.names {
+							calls = append(calls, n)
+							evs = append(evs, lockEv{"call", n, ""})
+						}
 					}
 				}
 				if id, ok := t.Fun.(*ast.Ident); ok {
@@ -865,13 +914,6 @@ func (pk *pkg) scanFunc(fd *ast.FuncDecl, imports map[string]*pkg, res *scanResu
 						}
 					case funcParams[id.Name] && id.Obj != nil:
 						evs = append(evs, lockEv{"cb", id.Name, ""})
-					case id.Obj == nil || func() bool { _, isFn := id.Obj.Decl.(*ast.FuncDecl); return isFn }():
-						if _, ok := pk.funcs[id.Name]; ok {
-							calls = append(calls, pk.name+"."+id.Name)
-							evs = append(evs, lockEv{"call", pk.name + "." + id.Name, ""})
-						} else if k, isVar := pk.vars[id.Name]; isVar && pk.isPkgVar(id) && k == "func" {
-							// a package-level function value: reads the variable (listed below by the Ident case)
-						}
 					}
 				}
 			case *ast.IndexExpr:
@@ -891,7 +933,7 @@ func (pk *pkg) scanFunc(fd *ast.FuncDecl, imports map[string]*pkg, res *scanResu
 					}
 				}
 			case *ast.SelectorExpr:
-				if pk.onceField[t.Sel.Name] && !writes[t] && !inOnce && fd.Name.Name != "CloneFrom" {
+				if pk.onceField[t.Sel.Name] && pk.isOwnedField(t) && !writes[t] && !inOnce && fd.Name.Name != "CloneFrom" {
 					if loc, _, _, _ := pkgVarOf(t); loc == "" {
 						s := "none"
 						if doneOn[typeStr(t.X)] {
